@@ -184,6 +184,13 @@ func runC15(cfg *vh.Config) error {
 						return fmt.Errorf("case %d: %s", c.id, o.Extra)
 					}
 				}
+			case "exportloss":
+				if bad {
+					fail(fmt.Sprintf("C15 SchemaSetFromFiles / ToJ5Root -> %s in %s: %s", o.Class, o.Site, normMsg(o.Msg)), "exporting the reflected schemas", o.Msg)
+				}
+				for _, v := range o.Viol {
+					fail("C15 the export of a reflected schema differs from the schema object (member lost or changed by ToJ5Root / ToJ5Field)", "no rule, enum option info, entity marker, any-membership or list rule is lost", v)
+				}
 			case "import":
 				ci = classN[o.Class]
 				if bad {
